@@ -239,7 +239,7 @@ func vpC11Scribble(r *common.CustodianUpdateRequest) {
 func TestVP_C11_store_custodian(t *testing.T) {
 	c := kit.New(t, "C11", "rapid: 1..6 custodian updates (7..11 node entries from a fixed signed pool, six custodian addresses, first entry with or without valid node signatures) written at increasing times through writeTransaction+writeUTXO, 2..4 queries after every append at {t-1,t,t+1} of update times, before the first and uniform; checks: cached ReadCustodian == uncached readCustodianAccount (errors included) == (one time in three) a cold-cache store view, answers remembered for q stay the same after updates with ts>q are appended, mutating a returned object does not change later answers, reference = last update with ts<q when no update sits at q; plus a synthetic state where the first (genesis-parsed) transaction is referenced again at a later time; non-trivial = query with updates on both sides; distinct by rendered answer+q")
 	c.Require("updates-both-sides", "tie-at-q", "cache-hit", "before-first", "remembered-rechecked", "scribbled", "genesis-unsigned-first", "same-tx-twice", "error-answer")
-	kit.SetChecks(kit.N(150, 6000))
+	kit.SetChecks(kit.N(150, 3600))
 	rapid.Check(t, func(rt *rapid.T) {
 		s := vpC11OpenStore()
 		defer vpC11CloseStore(s)
@@ -429,7 +429,7 @@ func vpC11RenderNodes(nodes []*common.Node, sorted bool) string {
 func TestVP_C11_store_nodes(t *testing.T) {
 	c := kit.New(t, "C11", "rapid: 7..10 genesis accepts at one timestamp, then 0..10 pledge/accept/cancel/remove records written with the production writers at increasing times (steps 1ns, 30s, 12h, 3d); after every append 3..6 queries at {t-1,t,t+1}, before the first record and uniform; checks: ReadAllNodes(q,true|false) remembered for q stay the same after records with ts>q are appended, ReadAllNodes(q,true) is a prefix of ReadAllNodes(q',true) for q<q', reference = written records with ts<=q in key order / latest per signer when no record sits at q; non-trivial = records on both sides of q; distinct by (q, number of records)")
 	c.Require("records-both-sides", "tie-at-q", "remembered-rechecked", "removed-visible", "pledging-visible")
-	kit.SetChecks(kit.N(150, 6000))
+	kit.SetChecks(kit.N(150, 3600))
 	rapid.Check(t, func(rt *rapid.T) {
 		s := vpC11OpenStore()
 		defer vpC11CloseStore(s)
